@@ -652,13 +652,15 @@ def run(tier, replay=None):
     found = found or afound
     cres, cfound = rc.check_chain(core, chk, cases, amap) if lres.get("driver_ok") else ({}, False)
     found = found or cfound
+    gres, gfound = rc.check_hexg(core, chk, cases, amap) if lres.get("driver_ok") else ({}, False)
+    found = found or gfound
     found = found or wfound
     chk.cov.update({
         "evaluations": len(cases) + len(mal), "distinct_nontrivial": len(distinct),
         "rule": "generated hex pattern x buffer built from instances / near-misses of the pattern; non-trivial = the specification admits at least one match in the buffer "
                 "(distinct (pattern, buffer) pairs)",
         "histogram": hist, "malformed_rejected": nmal, "violating_cases": nviol, "known_finding_cases": {k: len(v) for k, v in known_hits.items()},
-        "traces_validated_against_impl": len(cases) - nviol, "fx": fxres.get("cov"), "wfx": wres, "atoms_tie": ares, "chain_tie": cres,
+        "traces_validated_against_impl": len(cases) - nviol, "fx": fxres.get("cov"), "wfx": wres, "atoms_tie": ares, "chain_tie": cres, "hexg_tie": gres, "hexg_checked": gres.get("hexg_checked"), "hexg_false": gres.get("hexg_false"),
         "samples": [{"case_meta": metas.get(cases[min(len(cases) - 1, len(CORPUS))].split(" ", 1)[0]), "implementation": (impl[min(len(impl) - 1, len(CORPUS))][:300] if impl else None),
                      "model": (model[min(len(model) - 1, len(CORPUS))][:300] if model else None)}],
     })
